@@ -86,9 +86,13 @@ def list_join_clause(segment: BaseSegment) -> list[BaseSegment]:
     """
     traverse from_clause, recursively goes into bracket by default
     """
-    if segment.type in ["from_clause", "update_statement"]:
+    if segment.type in ["from_clause", "update_statement", "from_expression"]:
         # for select from subquery, do not recursively go into subquery
-        if from_expression := segment.get_child("from_expression"):
+        if from_expression := (
+            segment
+            if segment.type == "from_expression"
+            else segment.get_child("from_expression")
+        ):
             join_clause = from_expression.get_child("join_clause")
             if not join_clause:
                 try:
@@ -186,12 +190,7 @@ def list_subqueries(segment: BaseSegment) -> list[SubQueryTuple]:
     elif segment.type in ["from_clause", "from_expression"]:
         if from_expression_element := find_from_expression_element(segment):
             subquery = list_subqueries(from_expression_element)
-        join_clauses = (
-            segment.get_children("join_clause")
-            if segment.type == "from_expression"
-            else list_join_clause(segment)
-        )
-        for join_clause in join_clauses:
+        for join_clause in list_join_clause(segment):
             if from_expression_element := find_from_expression_element(join_clause):
                 subquery += list_subqueries(from_expression_element)
     elif is_set_expression(segment):
